@@ -86,7 +86,7 @@ func fkey(f *types.Func) string {
 	if f == nil {
 		return ""
 	}
-	return stripTypeArgs(shorten(f.Origin().FullName()))
+	return canonKey(stripTypeArgs(shorten(f.Origin().FullName())))
 }
 
 // stripTypeArgs removes [...] type parameter/argument lists from a key.
@@ -214,6 +214,7 @@ func Load(repoDir, tags, goos string) (*Prog, error) {
 	if goos == "" && len(p.PkgList) < minProductPackages {
 		return nil, fmt.Errorf("only %d product packages loaded, expected at least %d", len(p.PkgList), minProductPackages)
 	}
+	resolveRoles(p.Pkgs)
 	for _, pkg := range p.PkgList {
 		for _, f := range pkg.Syntax {
 			for _, d := range f.Decls {
